@@ -281,6 +281,8 @@ pub struct Child {
     pub item: u64,
     /// engine C: an abandoned source is exempt from I1/I6
     pub exempt: bool,
+    /// stream leaf whose script continues after its first `End` (C19: wait_until must stay transparent)
+    pub resumable: bool,
 }
 impl Child {
     pub fn leaf(kind: Kind, script: Vec<Step>) -> Child {
@@ -309,6 +311,7 @@ impl Child {
             role: 0,
             item: 0,
             exempt: false,
+            resumable: false,
         }
     }
     pub fn node(fam: Fam, cont: Cont, n: usize) -> Child {
@@ -396,6 +399,7 @@ pub struct Stats {
     pub thread_root_wakes: u64,
     pub thread_root_wakes_stale: u64,
     pub thread_waits: u64,
+    pub polls_after_none: u64,
 }
 impl Stats {
     pub fn fields(&self) -> Vec<(&'static str, u64)> {
@@ -446,6 +450,7 @@ impl Stats {
             ("thread_root_wakes_current", self.thread_root_wakes),
             ("thread_root_wakes_stale", self.thread_root_wakes_stale),
             ("thread_main_waits", self.thread_waits),
+            ("wait_until_streams_polled_on_after_none", self.polls_after_none),
         ]
     }
     pub fn add(&mut self, o: &Stats) {
@@ -460,7 +465,7 @@ impl Stats {
             group_removes, group_reserves, group_grows, group_none, group_refills, held_exemptions,
             quiescent_checks, i1_obligations, i4_obligations, model_polls_checked, never_children,
             co_closure_calls, co_gauge_checks, co_errors, fairness_windows, thread_fires, thread_fires_stale,
-            thread_root_wakes, thread_root_wakes_stale, thread_waits
+            thread_root_wakes, thread_root_wakes_stale, thread_waits, polls_after_none
         );
         self.co_max_gauge = self.co_max_gauge.max(o.co_max_gauge);
     }
@@ -520,6 +525,11 @@ pub struct CoState {
 }
 
 impl World {
+    /// a resumable stream leaf that still has script left (its `End` was not its last word)
+    pub fn resumes(&self, c: Cid) -> bool {
+        let ch = &self.ch[c];
+        ch.resumable && ch.pc < ch.script.len() && ch.dropped == 0
+    }
     pub fn new() -> World {
         World {
             src: Src::Rng(1),
